@@ -558,6 +558,52 @@ async def D16d():
     return got == [(b"c", b"42"), (b"d", None)], got
 
 
+# --------------------------------------------------------------------------- C12
+async def D12b():
+    """a client that reads slowly (real socket pair, small kernel buffers): the transport keeps a view of what the
+    socket did not take; the stream must survive that and deliver every byte in order"""
+    import socket
+    from mysql_mimic.stream import MysqlStream
+    a, b = socket.socketpair()
+    a.setsockopt(socket.SOL_SOCKET, socket.SO_SNDBUF, 4096)
+    b.setsockopt(socket.SOL_SOCKET, socket.SO_RCVBUF, 4096)
+    reader, writer = await asyncio.open_connection(sock=a)
+    st = MysqlStream(reader, writer)
+    got = bytearray()
+    b.setblocking(False)
+    done = asyncio.Event()
+
+    async def slow():
+        while not done.is_set() or True:
+            await asyncio.sleep(0.002)
+            try:
+                d = b.recv(1 << 16)
+            except BlockingIOError:
+                if done.is_set():
+                    return
+                continue
+            if not d:
+                return
+            got.extend(d)
+    t = asyncio.ensure_future(slow())
+    want = bytearray()
+    err = None
+    try:
+        for i in range(12):
+            payload = bytes([65 + i]) * 100000
+            want += struct.pack("<I", len(payload))[:3] + bytes([i]) + payload
+            await st.write(payload, drain=(i % 3 == 2))
+        await st.drain()
+    except Exception as e:  # noqa
+        err = "%s: %s" % (type(e).__name__, e)
+    await asyncio.sleep(0.05)
+    done.set()
+    await t
+    writer.close()
+    b.close()
+    return err is None and bytes(got) == bytes(want), (err, len(got), len(want))
+
+
 # --------------------------------------------------------------------------- C18
 async def D18():
     ids = {LocalControl(server_id=0).server_id for _ in range(8)}
@@ -569,7 +615,7 @@ ALL = {
     "D5c": ("C05", D5c), "D6": ("C06", D6), "D7": ("C07", D7), "D9a": ("C09", D9a), "D9b": ("C09", D9b),
     "D9c": ("C09", D9c), "D9d": ("C09", D9d), "D10a": ("C03", D10a), "D10b": ("C03", D10b),
     "D10c": ("C03", D10c), "D11": ("C11", D11), "D13": ("C13", D13), "D13b": ("C13", D13b), "D13c": ("C13", D13c), "D14": ("C14", D14), "D15": ("C15", D15),
-    "D16": ("C16", D16), "D16b": ("C16", D16b), "D16d": ("C16", D16d), "D18": ("C18", D18),
+    "D12b": ("C12", D12b), "D16": ("C16", D16), "D16b": ("C16", D16b), "D16d": ("C16", D16d), "D18": ("C18", D18),
 }
 
 
